@@ -125,7 +125,9 @@ class TypeDef:
             lines.append("}")
         # samples
         vals = []
-        if self.kind == "struct":
+        if getattr(self, "sample_override", None):
+            pass
+        elif self.kind == "struct":
             for combo in itertools.product(*[samples(f["ty"], inner_samples) for f in self.fields]):
                 vals.append("%s { %s }" % (self.name, ", ".join("%s: %s" % (f["name"], v) for f, v in zip(self.fields, combo))))
         elif self.kind == "tuple":
@@ -144,6 +146,8 @@ class TypeDef:
                     for combo in itertools.product(*[samples(f["ty"], inner_samples) for f in v["fields"]]):
                         vals.append("%s::%s { %s }" % (self.name, v["name"], ", ".join("%s: %s" % (f["name"], x) for f, x in zip(v["fields"], combo))))
         vals = vals[:12]
+        if getattr(self, "sample_override", None):
+            vals = list(self.sample_override)
         self.nsamples = len(vals)
         lines.append("pub fn %s_samples() -> Vec<%s> { vec![%s] }" % (self.name.lower(), self.name, ", ".join(vals)))
         return "\n".join(lines)
@@ -247,6 +251,21 @@ def universes(tier):
                     if any(k == "struct" for k in ks):
                         t4 = TypeDef(nm(), "enum", variants=[dict(v) for v in vs], tagging=tagging, attrs=["deny_unknown_fields"])
                         add(t4, desc="enum:%s[%s]{deny}" % (tagging, ",".join(ks)))
+    # self-referential root types: schemars puts the root type into `definitions` as well, under the root's own title
+    def selfref(name, kind):
+        if kind == "opt_box":
+            t = TypeDef(name, "struct", [{"name": "next", "ty": ("opt", ("box", ("ref", name)))}, {"name": "v", "ty": "i32"}])
+            t.sample_override = ["%s { next: None, v: -7i32 }" % name, "%s { next: Some(Box::new(%s { next: None, v: 1i32 })), v: 2i32 }" % (name, name)]
+        elif kind == "vec":
+            t = TypeDef(name, "struct", [{"name": "kids", "ty": ("vec", ("ref", name))}, {"name": "label", "ty": "String"}])
+            t.sample_override = ["%s { kids: vec![], label: String::new() }" % name,
+                                 "%s { kids: vec![%s { kids: vec![], label: \"a\".to_string() }], label: \"b\".to_string() }" % (name, name)]
+        else:
+            t = TypeDef(name, "enum", variants=[{"name": "Leaf", "kind": "newtype", "tys": ["i32"]}, {"name": "Node", "kind": "newtype", "tys": [("vec", ("ref", name))]}])
+            t.sample_override = ["%s::Leaf(3i32)" % name, "%s::Node(vec![%s::Leaf(1i32), %s::Node(vec![])])" % (name, name, name)]
+        return t
+    for kind in ("opt_box", "vec", "enum"):
+        add(selfref(nm(), kind), desc="selfref(%s)" % kind)
     # all-unit enums (C-like)
     for tagging in ("external", "adjacent") if tier == "quick" else ("external", "adjacent", "internal"):
         add(TypeDef(nm(), "enum", variants=[{"name": "North", "kind": "unit"}, {"name": "SouthEast", "kind": "unit"}], tagging=tagging), desc="enum:%s[units]" % tagging)
